@@ -7,7 +7,7 @@ Open Scope N_scope.
    programs of atomic steps — one step per critical section of the real code:
      index lookup (bucket lock held) | primary read (outside it) | primary pool append | index insert / update / remove
    A schedule is any list of thread numbers.  Ghost state: the specification map, changed only at linearization points. *)
-Inductive call2 := QPut (k v : bytes) | QGet (k : bytes) | QRemove (k : bytes).
+Inductive call2 := QPut (k v : bytes) | QGet (k : bytes) | QRemove (k : bytes) | QHas (k : bytes) | QSize (k : bytes).
 Inductive pc2 :=
 | QStart (c : call2)
 | QPutB (k v ik : bytes)                                  (* key seen absent; next: append to the primary pool *)
@@ -15,6 +15,8 @@ Inductive pc2 :=
 | QUpdB (k v ik : bytes) (prev : block)                   (* key seen with another value; next: append to the primary pool *)
 | QUpdC (k v ik : bytes) (prev loc : block)               (* next: re-point the index entry, free prev (linearization point) *)
 | QGetB (ik : bytes) (b : block) (lin : out)              (* index looked up (linearization point); next: read the primary *)
+| QHasB (ik : bytes) (b : block) (lin : out)              (* Has: the same two steps, the answer is a boolean *)
+| QSizeB (k ik : bytes) (b : block) (lin : out)           (* GetSize: the same two steps, the answer is the value's length *)
 | QRemB (k ik : bytes) (b : block)                        (* index looked up; next: read the primary and compare keys *)
 | QRemC (k ik : bytes) (b : block)                        (* next: remove the index entry, free b (linearization point) *)
 | QDone (r lin : out).
@@ -68,6 +70,32 @@ Definition istep2 (s : store) (m : smap) (p : pc2) : store * smap * pc2 :=
                         | None => (s, m, QDone RErr lin) end
       | _ => (s, m, QDone RErr lin)
       end
+  | QStart (QHas k) =>
+      match mh_digest k with None => (s, m, QDone RErr RErr) | Some ik =>
+      match idx_get (sidx s) ik with
+      | None => (s, m, QDone (RBool false) (snd (spec_step imm m (OHas k))))
+      | Some b => (s, m, QHasB ik b (snd (spec_step imm m (OHas k))))
+      end end
+  | QHasB ik b lin =>
+      match pri_get (spri s) b with
+      | PFound k' _ => match mh_digest k' with Some d => (s, m, QDone (RBool (beq ik d)) lin) | None => (s, m, QDone RErr lin) end
+      | PNil => (s, m, QDone (RBool (beq ik [])) lin)
+      | PErr => (s, m, QDone RErr lin)
+      end
+  | QStart (QSize k) =>
+      match mh_digest k with None => (s, m, QDone RErr RErr) | Some ik =>
+      match idx_get (sidx s) ik with
+      | None => (s, m, QDone (RSize false 0) (snd (spec_step imm m (OSize k))))
+      | Some b => (s, m, QSizeB k ik b (snd (spec_step imm m (OSize k))))
+      end end
+  | QSizeB k ik b lin =>
+      match pri_get (spri s) b with
+      | PFound k' _ => match mh_digest k' with
+                       | Some d => if beq ik d then (s, m, QDone (RSize true (bsz b - blen k)) lin) else (s, m, QDone (RSize false 0) lin)
+                       | None => (s, m, QDone RErr lin) end
+      | PNil => (s, m, QDone (RSize false 0) lin)
+      | PErr => (s, m, QDone RErr lin)
+      end
   | QStart (QRemove k) =>
       match mh_digest k with None => (s, m, QDone RErr RErr) | Some ik =>
       match idx_get (sidx s) ik with
@@ -112,7 +140,7 @@ Definition wkey2 (p : pc2) : option bytes :=
 (* what a running call knows; every clause is stable under the steps of calls that write other keys *)
 Definition know2 (s : store) (m : smap) (p : pc2) : Prop :=
   match p with
-  | QStart (QPut k _) | QStart (QGet k) | QStart (QRemove k) => forall ik, mh_digest k = Some ik -> U ik
+  | QStart (QPut k _) | QStart (QGet k) | QStart (QRemove k) | QStart (QHas k) | QStart (QSize k) => forall ik, mh_digest k = Some ik -> U ik
   | QPutB k v ik => mh_digest k = Some ik /\ U ik /\ m ik = None
   | QPutC k v ik loc => mh_digest k = Some ik /\ U ik /\ m ik = None /\ solid (spri s) loc k v
   | QUpdB k v ik prev => mh_digest k = Some ik /\ imm = false /\ exists k0 v0, m ik = Some (k0, v0) /\ beq v v0 = false
@@ -120,6 +148,13 @@ Definition know2 (s : store) (m : smap) (p : pc2) : Prop :=
   | QGetB ik b lin =>
       (exists k0 v0, solid (spri s) b k0 v0 /\
          ((mh_digest k0 = Some ik /\ lin = RVal true v0) \/ (exists ik', mh_digest k0 = Some ik' /\ ik' <> ik /\ lin = RVal false [])))
+  | QHasB ik b lin =>
+      (exists k0 v0, solid (spri s) b k0 v0 /\
+         ((mh_digest k0 = Some ik /\ lin = RBool true) \/ (exists ik', mh_digest k0 = Some ik' /\ ik' <> ik /\ lin = RBool false)))
+  | QSizeB k ik b lin =>
+      (exists k0 v0, solid (spri s) b k0 v0 /\
+         ((mh_digest k0 = Some ik /\ lin = RSize true (blen k0 + blen v0 - blen k)) \/
+          (exists ik', mh_digest k0 = Some ik' /\ ik' <> ik /\ lin = RSize false 0)))
   | QRemB k ik b =>
       mh_digest k = Some ik /\
       exists k1 v1, solid (spri s) b k1 v1 /\
@@ -142,7 +177,7 @@ Lemma know2_stable s m s' m' p w :
   know2 s m p -> know2 s' m' p.
 Proof.
   intros Hsol Hm Hw.
-  destruct p as [[k v|k|k]|k v ik|k v ik loc|k v ik prev|k v ik prev loc|ik b lin|k ik b|k ik b|r lin]; cbn [know2 wkey2] in *; auto.
+  destruct p as [[k v|k|k|k|k]|k v ik|k v ik loc|k v ik prev|k v ik prev loc|ik b lin|ik b lin|k ik b lin|k ik b|k ik b|r lin]; cbn [know2 wkey2] in *; auto.
   - intros (A & B & C). split; [exact A|]. split; [exact B|]. rewrite Hm; [exact C|]. apply Hw. reflexivity.
   - intros (A & B & C & D). split; [exact A|]. split; [exact B|]. split; [|apply Hsol; exact D].
     rewrite Hm; [exact C|]. apply Hw. reflexivity.
@@ -150,6 +185,8 @@ Proof.
     rewrite Hm; [exact C|]. apply Hw. reflexivity.
   - intros (A & B & (k0 & v0 & C & D) & E). split; [exact A|]. split; [exact B|]. split; [|apply Hsol; exact E].
     exists k0, v0. split; [|exact D]. rewrite Hm; [exact C|]. apply Hw. reflexivity.
+  - intros (k0 & v0 & Hs & H). exists k0, v0. split; [apply Hsol; exact Hs|exact H].
+  - intros (k0 & v0 & Hs & H). exists k0, v0. split; [apply Hsol; exact Hs|exact H].
   - intros (k0 & v0 & Hs & H). exists k0, v0. split; [apply Hsol; exact Hs|exact H].
   - intros (A & k1 & v1 & Hs & H). split; [exact A|]. exists k1, v1. split; [apply Hsol; exact Hs|].
     rewrite Hm by (apply Hw; reflexivity). exact H.
@@ -185,7 +222,7 @@ Proof.
       + rewrite nth_set_nth_other in Hi by exact Hti. rewrite nth_set_nth_other in Hj by exact Htj. apply (Hd i j pi pj _ Hij Hi Hj Hwi). }
   assert (Same : forall p', know2 s m p' -> (forall ik, wkey2 p' = Some ik -> wkey2 p = Some ik) -> CInv2 (s, m, set_nth t p' ps)).
   { intros p' Kp' Hw. apply (Change s m p' None); auto. intros; discriminate. }
-  destruct p as [[k v|k|k]|k v ik|k v ik loc|k v ik prev|k v ik prev loc|ik b lin|k ik b|k ik b|r lin]; cbn [istep2].
+  destruct p as [[k v|k|k|k|k]|k v ik|k v ik loc|k v ik prev|k v ik prev loc|ik b lin|ik b lin|k ik b lin|k ik b|k ik b|r lin]; cbn [istep2].
   - (* Put: look the key up *)
     cbn [know2] in Kp. destruct (mh_digest k) as [ik|] eqn:Hdk; [|apply Same; [reflexivity|intros ? H; discriminate]].
     specialize (Kp ik eq_refl).
@@ -229,6 +266,36 @@ Proof.
     + destruct (get_absent bits U s m ik HR Hm) as [Hi|(b & k' & v' & ik' & Hi & Hg & Hd' & Hne)]; rewrite Hi.
       * apply Same; [|intros ? H; discriminate]. cbn [know2 spec_step]. rewrite Hdk, Hm. reflexivity.
       * apply Same; [|intros ik0 H; cbn [wkey2] in *; congruence]. cbn [know2]. split; [exact Hdk|].
+        destruct (idx_get_solid bits U s m ik _ HR Hi) as (k1 & v1 & ik1 & Hs1 & _ & _).
+        destruct (solid_get _ _ _ _ PI Hs1) as [Hg1 _]. unfold pget in Hg. rewrite Hg in Hg1. inversion Hg1; subst k1 v1.
+        exists k', v'. split; [exact Hs1|]. right. exists ik'. auto.
+  - (* Has: look the key up (linearization point) *)
+    cbn [know2] in Kp. destruct (mh_digest k) as [ik|] eqn:Hdk; [|apply Same; [reflexivity|intros ? H; discriminate]].
+    destruct (m ik) as [[k0 v0]|] eqn:Hm.
+    + destruct (r_map _ _ _ _ HR ik k0 v0 Hm) as (_ & Hd0 & l & e & Hl & Hin & Hpf & Hs).
+      destruct (get_present bits U s m ik k0 v0 HR Hm) as (e' & l' & _ & _ & _ & Hi & Hg & _).
+      rewrite Hi. apply Same; [|intros ? H; discriminate]. cbn [know2 spec_step]. rewrite Hdk, Hm.
+      destruct (idx_get_solid bits U s m ik _ HR Hi) as (k1 & v1 & ik1 & Hs1 & _ & _).
+      destruct (solid_get _ _ _ _ PI Hs1) as [Hg1 _]. unfold pget in Hg. rewrite Hg in Hg1. inversion Hg1; subst k1 v1.
+      exists k0, v0. split; [exact Hs1|]. left. split; [exact Hd0|reflexivity].
+    + destruct (get_absent bits U s m ik HR Hm) as [Hi|(b & k' & v' & ik' & Hi & Hg & Hd' & Hne)]; rewrite Hi.
+      * apply Same; [|intros ? H; discriminate]. cbn [know2 spec_step]. rewrite Hdk, Hm. reflexivity.
+      * apply Same; [|intros ? H; discriminate]. cbn [know2 spec_step]. rewrite Hdk, Hm.
+        destruct (idx_get_solid bits U s m ik _ HR Hi) as (k1 & v1 & ik1 & Hs1 & _ & _).
+        destruct (solid_get _ _ _ _ PI Hs1) as [Hg1 _]. unfold pget in Hg. rewrite Hg in Hg1. inversion Hg1; subst k1 v1.
+        exists k', v'. split; [exact Hs1|]. right. exists ik'. auto.
+  - (* GetSize: look the key up (linearization point) *)
+    cbn [know2] in Kp. destruct (mh_digest k) as [ik|] eqn:Hdk; [|apply Same; [reflexivity|intros ? H; discriminate]].
+    destruct (m ik) as [[k0 v0]|] eqn:Hm.
+    + destruct (r_map _ _ _ _ HR ik k0 v0 Hm) as (_ & Hd0 & l & e & Hl & Hin & Hpf & Hs).
+      destruct (get_present bits U s m ik k0 v0 HR Hm) as (e' & l' & _ & _ & _ & Hi & Hg & _).
+      rewrite Hi. apply Same; [|intros ? H; discriminate]. cbn [know2 spec_step]. rewrite Hdk, Hm.
+      destruct (idx_get_solid bits U s m ik _ HR Hi) as (k1 & v1 & ik1 & Hs1 & _ & _).
+      destruct (solid_get _ _ _ _ PI Hs1) as [Hg1 _]. unfold pget in Hg. rewrite Hg in Hg1. inversion Hg1; subst k1 v1.
+      exists k0, v0. split; [exact Hs1|]. left. split; [exact Hd0|reflexivity].
+    + destruct (get_absent bits U s m ik HR Hm) as [Hi|(b & k' & v' & ik' & Hi & Hg & Hd' & Hne)]; rewrite Hi.
+      * apply Same; [|intros ? H; discriminate]. cbn [know2 spec_step]. rewrite Hdk, Hm. reflexivity.
+      * apply Same; [|intros ? H; discriminate]. cbn [know2 spec_step]. rewrite Hdk, Hm.
         destruct (idx_get_solid bits U s m ik _ HR Hi) as (k1 & v1 & ik1 & Hs1 & _ & _).
         destruct (solid_get _ _ _ _ PI Hs1) as [Hg1 _]. unfold pget in Hg. rewrite Hg in Hg1. inversion Hg1; subst k1 v1.
         exists k', v'. split; [exact Hs1|]. right. exists ik'. auto.
@@ -286,6 +353,18 @@ Proof.
     destruct H as [[Hd0 ->]|(ik' & Hd' & Hne & ->)].
     + rewrite Hd0, beq_refl. apply Same; [reflexivity|intros ? H; discriminate].
     + rewrite Hd'. rewrite beq_neq by exact Hne. apply Same; [reflexivity|intros ? H; discriminate].
+  - (* Has: read the primary at the block found earlier *)
+    cbn [know2] in Kp. destruct Kp as (k0 & v0 & Hs & H).
+    destruct (solid_get _ _ _ _ PI Hs) as [Hg _]. rewrite Hg.
+    destruct H as [[Hd0 ->]|(ik' & Hd' & Hne & ->)].
+    + rewrite Hd0, beq_refl. apply Same; [reflexivity|intros ? H; discriminate].
+    + rewrite Hd'. rewrite beq_neq by congruence. apply Same; [reflexivity|intros ? H; discriminate].
+  - (* GetSize: read the primary at the block found earlier *)
+    cbn [know2] in Kp. destruct Kp as (k0 & v0 & Hs & H).
+    destruct (solid_get _ _ _ _ PI Hs) as [Hg Hsz]. rewrite Hg.
+    destruct H as [[Hd0 ->]|(ik' & Hd' & Hne & ->)].
+    + rewrite Hd0, beq_refl, Hsz. apply Same; [reflexivity|intros ? H; discriminate].
+    + rewrite Hd'. rewrite beq_neq by congruence. apply Same; [reflexivity|intros ? H; discriminate].
   - (* Remove: read the primary, compare the keys *)
     cbn [know2] in Kp. destruct Kp as (Hdk & k1 & v1 & Hs & H).
     destruct (solid_get _ _ _ _ PI Hs) as [Hg _]. rewrite Hg.
@@ -312,8 +391,8 @@ Qed.
 Lemma exec_inv2 sched : forall c, CInv2 c -> CInv2 (exec2 c sched).
 Proof. induction sched as [|t sched IH]; intros c HI; cbn [exec2 fold_left]; [exact HI|]. apply IH. apply step_inv2; exact HI. Qed.
 
-Definition call_key (c : call2) : bytes := match c with QPut k _ | QGet k | QRemove k => k end.
-Definition is_writer (c : call2) : bool := match c with QGet _ => false | _ => true end.
+Definition call_key (c : call2) : bytes := match c with QPut k _ | QGet k | QRemove k | QHas k | QSize k => k end.
+Definition is_writer (c : call2) : bool := match c with QPut _ _ | QRemove _ => true | _ => false end.
 (* every thread is about to start one call; no two WRITERS (Put / Remove) address the same key *)
 Definition init_ok2 (s : store) (m : smap) (calls : list call2) : Prop :=
   R bits U s m /\
@@ -326,12 +405,12 @@ Lemma init_inv2 s m calls : init_ok2 s m calls -> CInv2 (s, m, map QStart calls)
 Proof.
   intros (HR & HUk & Hdist). constructor; cbn [fst snd]; [exact HR| |].
   - intros t p Hp. rewrite nth_error_map in Hp. destruct (nth_error calls t) as [c|] eqn:Hc; [|discriminate].
-    inversion Hp; subst p. apply nth_error_In in Hc. destruct c as [k v|k|k]; cbn [know2]; intros ik Hd; apply (HUk _ ik Hc Hd).
+    inversion Hp; subst p. apply nth_error_In in Hc. destruct c as [k v|k|k|k|k]; cbn [know2]; intros ik Hd; apply (HUk _ ik Hc Hd).
   - intros i j pi pj ik Hij Hi Hj Hw. rewrite nth_error_map in Hi, Hj.
     destruct (nth_error calls i) as [ci|] eqn:Hci; [|discriminate]. destruct (nth_error calls j) as [cj|] eqn:Hcj; [|discriminate].
     inversion Hi; inversion Hj; subst pi pj.
-    destruct ci as [k v|k|k]; cbn [wkey2] in Hw; try discriminate;
-      destruct cj as [k' v'|k'|k']; cbn [wkey2]; try discriminate;
+    destruct ci as [k v|k|k|k|k]; cbn [wkey2] in Hw; try discriminate;
+      destruct cj as [k' v'|k'|k'|k'|k']; cbn [wkey2]; try discriminate;
       eapply (Hdist i j _ _ ik Hij Hci Hcj); reflexivity || exact Hw.
 Qed.
 
